@@ -57,6 +57,13 @@ def find_witness(pid, obligation):
             if w.get("kind") == "ds_ops":
                 w["fn"] = fn.split("::")[1]
                 return w
+        if pid in ("C11", "C17"):
+            ok, err = build_witness()
+            if ok:
+                p = subprocess.run([wbin("meta_witness"), "case" if pid == "C11" else "ws", gen.REPO], capture_output=True, text=True, timeout=120)
+                w = json.loads(p.stdout.strip().split("\n")[-1])
+                if w.get("kind") == "meta":
+                    return w
         # generic search for a panicking entry-point call (degenerate inputs), used for body / C03 obligations
         if pid == "C03" or obligation.get("kind") == "body":
             ok, err = build_witness()
@@ -94,6 +101,10 @@ def replay(path):
         return 2
     if w.get("kind") == "ds_ops":
         p = subprocess.run([wbin("ds_witness"), "--replay", json.dumps(w["ops"]), w.get("fn", "")], capture_output=True, text=True)
+        print(p.stdout.strip())
+        return 1 if p.returncode == 1 else 0
+    if w.get("kind") == "meta":
+        p = subprocess.run([wbin("meta_witness"), "--replay", json.dumps(w)], capture_output=True, text=True)
         print(p.stdout.strip())
         return 1 if p.returncode == 1 else 0
     if w.get("kind") == "call":
